@@ -594,6 +594,33 @@ def local_aliases(fn: FunctionInfo) -> dict[str, ast.AST]:
     return out
 
 
+def single_defs(fn: FunctionInfo) -> dict[str, ast.AST]:
+    """Locals bound exactly once in ``fn`` by a plain ``name = <expr>`` (any expression, calls included), closed transitively.
+
+    For *shape* matching only (``max(a, b)`` with ``a`` hoisted into a temp): the expansion ignores evaluation order, so a rule
+    that uses it must not depend on when the temp was computed."""
+    counts: dict[str, int] = {}
+    vals: dict[str, ast.AST] = {}
+    params = set(fn.params())
+    for st in walk_stmts(fn.node.body):
+        for t in _all_targets(st):
+            if isinstance(t, ast.Name):
+                counts[t.id] = counts.get(t.id, 0) + 1
+                if isinstance(st, ast.Assign) and len(st.targets) == 1 and st.targets[0] is t:
+                    vals[t.id] = st.value
+    out = {k: v for k, v in vals.items() if counts.get(k) == 1 and k not in params}
+    for _ in range(6):
+        changed = False
+        for k, v in list(out.items()):
+            nv = expand(v, {kk: vv for kk, vv in out.items() if kk != k})
+            if dump(nv) != dump(v):
+                out[k] = nv
+                changed = True
+        if not changed:
+            break
+    return out
+
+
 def _all_targets(st: ast.stmt) -> list[ast.AST]:
     from ..effects import write_targets
 
